@@ -191,6 +191,13 @@ def setup_task_paths(paths_in, paths_out, allowed_input_suffixes):
     for ii, po in enumerate(paths_out):
         if po.suffix != ".rtdc":
             paths_out[ii] = po.with_name(po.name + ".rtdc")
+    # Never remove an input file (an output path may coincide with an
+    # input path, possibly only after the suffix correction above).
+    inputs_resolved = [pi.resolve() for pi in paths_in]
+    for po in paths_out:
+        if po.resolve() in inputs_resolved:
+            raise ValueError(f"Output path '{po}' is also an input path; "
+                             f"please choose a different output path!")
     [po.unlink() for po in paths_out if po.exists()]
 
     paths_temp = [po.with_suffix(".rtdc~") for po in paths_out]
